@@ -361,6 +361,8 @@ def conforming(N: Namespace, term: Any, rng: random.Random, depth: int = 0) -> A
                 items.append(v)
             except TypeError:
                 pass
+        if rng.random() < 0.2:
+            return dict.fromkeys(items).keys()  # a Set that is neither a set nor a frozenset
         return rng.choice([set, frozenset])(items)
     if k == "map":
         d = {}
@@ -413,7 +415,7 @@ def battery(N: Namespace, problems: list[str] | None = None) -> list[Any]:
     out: list[Any] = [
         object(), 0, 1, True, False, 2, 1.5, 1.0, "s", "ab", "x", "a", b"b", b"k", None, N.MISSING, (), [], {}, set(), frozenset(), (1,), [1], {"ab": 1}, {1: "a"}, {"k"},
         uuid.UUID(int=5), datetime.date(2020, 1, 1), datetime.datetime(2020, 1, 1), datetime.time(1, 2), datetime.timedelta(1), datetime.timezone.utc, pathlib.Path("p"),
-        ns["Color"].RED, ns["Level"].LOW, len, ns["RunnerImpl"](), ns["NotRunner"](), ns["Thing"](), ns["Thing"]("t"), 3 + 4j, range(3), ("a", 1), (1, "a"), [None], (None,), {"k": None}, types.MappingProxyType({"ab": 1}), types.MappingProxyType({1: "a"}), types.MappingProxyType({"k": None}), types.MappingProxyType({}), types.MappingProxyType({"ab": [1]}), 3,
+        ns["Color"].RED, ns["Level"].LOW, len, ns["RunnerImpl"](), ns["NotRunner"](), ns["Thing"](), ns["Thing"]("t"), 3 + 4j, range(3), ("a", 1), (1, "a"), [None], (None,), {"k": None}, types.MappingProxyType({"ab": 1}), types.MappingProxyType({1: "a"}), types.MappingProxyType({"k": None}), types.MappingProxyType({}), types.MappingProxyType({"ab": [1]}), {"k": 1}.keys(), {1: "a", 2: "b"}.keys(), {}.keys(), {("a", 1): None}.keys(), 3,
         "1", "2", "0", "k", "True", "None", b"x", b"a", "RED", "Color.RED", 1.0000001, -1, "y ", ["x"], ("x",),
     ]
     makers = [
@@ -499,9 +501,7 @@ def conforms(N: Namespace, term: Any, v: Any) -> bool | None:
     if k in ("set", "frozenset"):
         if not isinstance(v, collections.abc.Set):
             return False
-        if not isinstance(v, (set, frozenset)):
-            return None  # dict_keys & co
-        return _all(conforms(N, t[1], e) for e in v)
+        return _all(conforms(N, t[1], e) for e in v)  # any collections.abc.Set - a keys view of a dict as well
     if k == "map":
         if not isinstance(v, collections.abc.Mapping):
             return False
